@@ -150,6 +150,29 @@ theorem main_no_writer (spill wpc : Nat) (t : Tree α)
           not_true_eq_false, if_false, List.append_nil]
       · simp [optBytes, d1]
 
+/-! ### where each chunk ends up in the written object -/
+
+/-- **The written object, chunk by chunk.**  With a header of fixed length `hdrSz` (the COG header is
+patched in place, its length does not depend on the observed list) and no footer, the bytes of the
+`i`-th chunk of the stream sit in the finished object exactly at offset
+`hdrSz + (total size of the chunks before it)`. -/
+theorem file_chunk_bytes (W : Writer) (spill wpc : Nat) (t : Tree α)
+    (mkHdr : Option (List (Nat × Int) → List α))
+    (hne : t.NonEmpty) (hcap : W.minPart + 1 + t.leaves * wpc ≤ W.maxPart + 1)
+    (hdrSz : Nat) (hH : (optBytes (mkHdr.map (fun f => f t.obs))).length = hdrSz) :
+    ∃ wsF fp wsAll,
+      run ⟨some W, spill, wpc, true⟩ t mkHdr none = .ok (.written wsF fp, wsAll, t.obs) ∧
+      ∀ i (hi : i < t.chunks.length),
+        ((partsBytes fp).drop (hdrSz + (t.chunks.take i).flatten.length)).take (t.chunks[i].length)
+          = t.chunks[i] := by
+  obtain ⟨wsF, fp, wsAll, hrun, hbytes, _, _, _, _⟩ := main W spill wpc t mkHdr none hne hcap
+  refine ⟨wsF, fp, wsAll, by simpa using hrun, ?_⟩
+  intro i hi
+  rw [hbytes]
+  simp only [Option.map_none, optBytes, List.append_nil]
+  rw [Tree.bytes_eq_flatten, ← hH]
+  exact slice_flatten _ _ i hi
+
 /-! ### any schedule of the task graph -/
 
 /-- **Schedule independence.**  However the scheduler orders the tasks of the graph (any sequence of
